@@ -322,6 +322,11 @@ func (rw *rewriter) file(f *ast.File, constSet map[string]bool) error {
 			case rw.isBuiltin(n.Fun, "delete") && len(n.Args) == 2:
 				rw.counts["delete-map"]++
 				n.Args[0] = rw.mapHook("MW", n.Args[0], n)
+			case rw.isPkgSel(n.Fun, "runtime/debug", "Stack") && strings.HasSuffix(rw.pkg.PkgPath, "varutil/goaterr"):
+				// goaterr records a full stack trace in every error value (77% of the run time of the
+				// filespace checks); the trace text is not observable by any property
+				rw.counts["goaterr-stack-elided"]++
+				n.Fun = rw.vs("ElidedStack")
 			case rw.isPkgSel(n.Fun, "runtime", "Gosched"):
 				rw.counts["gosched"]++
 				n.Fun = rw.vs("Yield")
@@ -381,7 +386,7 @@ func (rw *rewriter) file(f *ast.File, constSet map[string]bool) error {
 		astutil.AddNamedImport(rw.fset, f, "vsched", ShimPath)
 	}
 	if rw.changed {
-		for _, p := range []string{"runtime", "context", "time"} {
+		for _, p := range []string{"runtime", "context", "time", "runtime/debug"} {
 			if importsPath(f, p) && !astutil.UsesImport(f, p) {
 				astutil.DeleteImport(rw.fset, f, p)
 			}
